@@ -26,6 +26,9 @@ type c05Case struct {
 	Move *mon.ElemMove `json:"move,omitempty"`
 	// NegFirst: operand A is negated through the library's own Negate before it is compared (its value is then -A.P).
 	NegFirst bool `json:"negate_a_first,omitempty"`
+	// DblFirst: operand A is doubled through the library's own Double before it is compared (its value is then 2*A.P); used
+	// with representations of A that put an intermediate of the doubling formula on a structured stored value.
+	DblFirst bool `json:"double_a_first,omitempty"`
 }
 
 func init() {
@@ -85,6 +88,26 @@ func c05Generate(c *mon.Ctx) {
 		for _, rp := range ra {
 			a := mon.MkElemCase(pv, rp)
 			c.Structured(func() any { return &c05Case{A: a, B: a, Rel: "P", Same: true} })
+		}
+	}
+
+	// an operand produced by the library's own Double from a representation that puts Y^2, Z^2, YZ or XY on a structured
+	// stored value (all ones below bit 253, around multiples of 2^252..2^255, ...), compared with 2P and with P
+	targets := gen.StoredTargets(oracle.P)
+	for ti := 0; ti < len(targets); ti += c.Stride() {
+		pv := pool.NonInf[ti%len(pool.NonInf)]
+
+		for _, which := range []string{"Y2", "Z2", "YZ", "XY"} {
+			if rp, ok := gen.ReprHitting(pv.P, which, targets[ti]); ok {
+				a := mon.MkElemCase(pv, rp)
+				b2 := mon.MkElemCase(gen.PV{P: oracle.Dbl(pv.P), Tag: "2P"}, gen.Repr{Kind: "affine", L: big.NewInt(1)})
+				b1 := mon.MkElemCase(pv, gen.Repr{Kind: "affine", L: big.NewInt(1)})
+				c.Structured(func() any { return &c05Case{A: a, B: b2, Rel: "P", DblFirst: true} })
+
+				if ti%8 == 0 {
+					c.Structured(func() any { return &c05Case{A: a, B: b1, Rel: "2P", DblFirst: true} })
+				}
+			}
 		}
 	}
 
@@ -389,6 +412,17 @@ func c05Run(c *mon.Ctx, csAny any) {
 		}
 
 		pa = oracle.Neg(pa)
+	}
+
+	if cs.DblFirst {
+		c.Count("doubled-first")
+
+		if pan, pv := mon.Call(func() { a.Double() }); pan {
+			c.Fail(fmt.Sprint("Double panicked: ", pv), "equal-double-panic", nil)
+			return
+		}
+
+		pa = oracle.Dbl(pa)
 	}
 
 	b := a
